@@ -6,6 +6,7 @@ import props
 
 TECH = {
     "E1": "bounded model checking of the compiled Rust (Kani 0.68 -> CBMC 6.11 -> CaDiCaL SAT) with differential reference models, unwinding assertions and cover-point vacuity witnesses; native replay of every counterexample",
+    "E3": "a loop-free region of rustc's MIR for pest_bridge::unescape_text symbolically executed into 32-bit bit-vector terms and decided by z3 against the RFC surrogate-pair formula; witnesses replayed through unescape_text",
     "E2": "cddl.pest (pest_meta optimised rules) encoded as a bounded SAT problem and compared by z3 with a span-derivability encoding of the RFC 8610/9682 ABNF; witnesses replayed through cddl_from_str",
 }
 
@@ -43,6 +44,8 @@ m = {
     "engines": [
         {"name": "E1", "path": "/verif/kani", "serves_properties": sorted(p for p, c in props.CLAIMED.items() if "E1" in c["engines"] and not p.endswith("_pending")),
          "kind_free_text": "Kani proof harnesses over leaf kernels, out-of-tree crate with a path dependency on /repo"},
+        {"name": "E3", "path": "/verif/e3", "serves_properties": sorted(p for p, c in props.CLAIMED.items() if "E3" in c["engines"]),
+         "kind_free_text": "MIR slice (nightly -Zunpretty=mir) -> z3 bit-vectors for the code-point arithmetic of unescape_text"},
         {"name": "E2", "path": "/verif/e2", "serves_properties": sorted(p for p, c in props.CLAIMED.items() if "E2" in c["engines"] and not p.endswith("_pending")),
          "kind_free_text": "cddl.pest -> SAT (pegdump + Python/z3) versus RFC ABNF span derivability"},
     ],
